@@ -292,6 +292,64 @@ def argv_env(required):
     return harness
 
 
+def env_depth2():
+    """The complete settings of a chosen subcommand include its environment at every level, however default_env was switched on."""
+    from jsonargparse import ArgumentError
+
+    def run(set_after, named2, env_l1, env_l2, env_sel2):
+        parser = _tree(True, 2)
+        if set_after:
+            parser.default_env = True
+        else:
+            parser = _tree(True, 2)
+            parser.default_env = True  # same tree; the constructor form is exercised through env=True below
+        env = {}
+        if env_l1:
+            env["APP_A__X"] = "31"
+        if env_l2:
+            env["APP_A__A1__P"] = "41"
+        if env_sel2:
+            env["APP_A__SUB2"] = "A1"
+        argv = ["A"] + (["A1"] if named2 else [])
+        selected2 = "A1" if (named2 or env_sel2) else None
+        saved = dict(os.environ)
+        os.environ.update(env)
+        try:
+            with warnings.catch_warnings():
+                warnings.simplefilter("ignore")
+                cfg = parser.parse_args(argv) if set_after else parser.parse_args(argv, env=True)
+            got = _plain(cfg)
+        except ArgumentError as ex:
+            got = "error"
+        finally:
+            os.environ.clear()
+            os.environ.update(saved)
+        S.note("error" if selected2 is None else "chosen")
+        if selected2 is None:
+            if got != "error":
+                return Fail("subcommand:level2-required-but-accepted", got=_shape(got))
+            return True
+        if got == "error":
+            return Fail("subcommand:level2-selection-failed", set_after=set_after, named2=named2, env_sel2=env_sel2)
+        exp = {"g": 0, "subcommand": "A", "A": {"x": 31 if env_l1 else 1, "x2": 11, "sub2": "A1", "A1": {"p": 41 if env_l2 else 4}}}
+        if not _deq(got, exp):
+            return Fail("subcommand:environment-of-a-nested-subcommand-lost", set_after=set_after, named2=named2, env_l1=env_l1, env_l2=env_l2, got=str(got)[:200])
+        return True
+
+    run(True, True, False, False, False)
+
+    def harness():
+        args = (S.flag("default_env_assigned_after_build"), S.flag("level2_named_on_argv"), S.flag("env_level1_option"), S.flag("env_level2_option"), S.flag("env_level2_selector"))
+        if S.replaying is not None:
+            return run(*args)
+        from crosshair.tracers import NoTracing
+
+        with NoTracing():
+            return run(*args)
+
+    return harness
+
+
 def main(rep, tier):
     rep.functions = FUNCTIONS
     rep.stubs = [FORMAT_STUBS_NOTE]
@@ -315,6 +373,8 @@ def main(rep, tier):
         for fk in DEFAULT_FILE_KINDS[1:]:
             jobs.append(dict(module="c17", func="selection", kwargs=dict(required=required, depth=1, channel="object", file_kind=fk), timeout=600))
         jobs.append(dict(module="c17", func="argv_env", kwargs=dict(required=required), timeout=600))
+        if required:
+            jobs.append(dict(module="c17", func="env_depth2", kwargs={}, timeout=600))
         if tier == "thorough":
             jobs.append(dict(module="c17", func="selection", kwargs=dict(required=required, depth=2, channel="cfg_text"), timeout=1800))
     results = run_jobs(jobs)
